@@ -184,6 +184,8 @@ impl DomainVariable {
 pub struct TransformerContext {
     frames: Vec<Frame<Primitive>>,
     domain: IndexMap<String, DomainVariable>,
+    /// elements expanded by all iterations of this transformation so far
+    expanded_elements: usize,
 }
 
 impl Default for TransformerContext {
@@ -208,7 +210,15 @@ impl TransformerContext {
         Self {
             frames: vec![frame],
             domain,
+            expanded_elements: 0,
         }
+    }
+
+    /// Counts one more element expanded by an iteration and returns the total
+    /// of this transformation (iterations nested in one another multiply).
+    pub(crate) fn count_expanded_element(&mut self) -> usize {
+        self.expanded_elements += 1;
+        self.expanded_elements
     }
 
     /// Creates a new transformer context from constants and domain declarations.
